@@ -6,6 +6,11 @@ Tie: C02's model correspondence (reversals / cycles / count_cycles) on the trans
 Search: metamorphic oracles on the implementation alone, with transformations that are exact in floating point:
 shift by an integer, scale by ±2^k, repeat samples, insert in-between samples, recount from the turning points
 (`rainflow.reversals` and `signal.find_reversals`).
+The same clauses are evaluated through every entry point that counts the cycles of a time series object
+(`TimeSeries.rfc()` plain / with a time window spanning the series / second call on the same object and on a second
+object built from the same arrays, and the GUI helper `app.funcs.calculate_rfc`), where in-between insertion is also
+produced by the library itself (`rfc(resample=dt/2)`: linear interpolation at the half steps, exact for dyadic data);
+each entry point is additionally tied to `count_cycles` on the raw samples (correspondence stream `entry==count_cycles`).
 """
 from fractions import Fraction
 
@@ -16,7 +21,9 @@ from ..core import rat
 from . import c02
 
 RULE = ("seeded random dyadic series (plateaus, ties, random walks) and all words over {0,1,2,3} of length <= 6 (7 thorough); "
-        "for each: shift, positive scale, negation, sample repetition, in-between insertion, recount from turning points; "
+        "for each: shift, positive scale, negation, sample repetition, in-between insertion, recount from turning points, "
+        "and the same clauses (plus resampling to half the time step) through the TimeSeries.rfc()/calculate_rfc entry points "
+        "with seeded time origin and dyadic time step (thorough: one seeded entry point per series longer than 6); "
         "non-trivial = original series has at least one cycle; distinct by series")
 
 
@@ -65,6 +72,121 @@ def is_f8b_shape(seq):
         return False
 
 
+# ---- entry points that count the cycles of a time series object ----------------------------------------------------
+def _norm(c):
+    return sorted(tuple(Fraction(float(v)) for v in row) for row in c)
+
+
+def _mkts(x, t0, dt, name="signal"):
+    from qats import TimeSeries
+    xa = np.array([float(v) for v in x])
+    ta = float(t0) + float(dt) * np.arange(xa.size, dtype=float)
+    return TimeSeries(name, ta, xa), ta, xa
+
+
+def _e_plain(x, t0, dt):
+    ts, _, _ = _mkts(x, t0, dt)
+    return _norm(ts.rfc())
+
+
+def _e_twin(x, t0, dt):
+    ts, ta, _ = _mkts(x, t0, dt)
+    return _norm(ts.rfc(twin=(float(ta[0]), float(ta[-1]))))
+
+
+def _e_history(x, t0, dt):
+    """history on one object and aliasing: count, query the object, count again; then a second object built from the
+    same arrays; the last count is the result"""
+    from qats import TimeSeries
+    ts, ta, xa = _mkts(x, t0, dt)
+    ts.rfc()
+    ts.get(twin=(float(ta[0]), float(ta[-1])))
+    ts.rfc()
+    ts2 = TimeSeries("signal-b", ta, xa)
+    return _norm(ts2.rfc())
+
+
+def _e_app(x, t0, dt):
+    """GUI helper: ranges and counts only (no rebinning)"""
+    from qats.app.funcs import calculate_rfc
+    ts, ta, _ = _mkts(x, t0, dt)
+    r, c = calculate_rfc({"signal": ts}, (float(ta[0]), float(ta[-1])), None, None)["signal"]
+    return sorted((Fraction(float(a)), Fraction(float(b))) for a, b in zip(r, c))
+
+
+ENTRIES = {
+    "TimeSeries.rfc()": _e_plain,
+    "TimeSeries.rfc(twin=whole series)": _e_twin,
+    "TimeSeries.rfc() after earlier calls on the same object / on a second object of the same arrays": _e_history,
+    "app.funcs.calculate_rfc(nbins=None)": _e_app,
+}
+
+
+def entry(name, x, t0, dt):
+    """table of the entry point, or 'err:<Exception>' (e.g. calculate_rfc cannot unpack an empty cycle table)"""
+    try:
+        return ENTRIES[name](x, t0, dt)
+    except Exception as e:
+        return "err:" + type(e).__name__
+
+
+def project(name, tab):
+    """what the entry point reports of a (range, mean, count) table"""
+    if name.startswith("app."):
+        return sorted((r, c) for r, _, c in tab)
+    return sorted(tab)
+
+
+def transform(tab, a, b):
+    if isinstance(tab, str):
+        return tab
+    return sorted((abs(a) * row[0], a * row[1] + b, row[2]) if len(row) == 3 else (abs(a) * row[0], row[1]) for row in tab)
+
+
+def resampled(x, t0, dt):
+    """`TimeSeries.rfc(resample=dt/2)`; None unless the library's resampled series is exactly the original samples with the
+    exact midpoints inserted (so that the clause 'inserting in-between samples changes nothing' applies literally)"""
+    ts, ta, xa = _mkts(x, t0, dt)
+    h = float(Fraction(dt) / 2)
+    _, xr = ts.get(resample=h)
+    if xr.size != 2 * xa.size - 1 or not np.array_equal(xr[::2], xa) or not np.array_equal(xr[1::2], (xa[:-1] + xa[1:]) / 2):
+        return None
+    return _norm(ts.rfc(resample=h))
+
+
+def show(tab):
+    return tab if isinstance(tab, str) else [list(map(str, r)) for r in tab]
+
+
+def entry_clauses(name, s, t0, dt, a, b, t2, report, skip=None):
+    """the property's clauses evaluated through one entry point; `report(oracle, input, expected, observed, clause)`"""
+    common = dict(series=[str(v) for v in s], entry=name, t0=str(t0), dt=str(dt))
+    base = entry(name, s, t0, dt)
+    for aa, bb in ((a, b), (Fraction(-1), Fraction(0))):
+        got = entry(name, [aa * v + bb for v in s], t0, dt)
+        exp = transform(base, aa, bb)
+        if got != exp:
+            report("%s of a*x+b: ranges |a|*r, means a*m+b, same counts (negation mirrors the means)" % name,
+                   dict(common, a=str(aa), b=str(bb)), show(exp), show(got), "entry-affine")
+    if t2 is not None:
+        got = entry(name, t2, t0, dt)
+        if got != base:
+            report("%s: inserting repeated / in-between samples changes nothing" % name,
+                   dict(common, refined=[str(v) for v in t2]), show(base), show(got), "entry-refine")
+    if name == "TimeSeries.rfc()" and len(s) >= 2:
+        try:
+            got = resampled(s, t0, dt)
+        except Exception as e:
+            got = "err:" + type(e).__name__
+        if got is None:
+            if skip is not None:
+                skip()
+        elif got != base:
+            report("TimeSeries.rfc(resample=dt/2) (exact midpoints inserted between consecutive samples) changes nothing",
+                   dict(common, resample="dt/2"), show(base), show(got), "entry-resample")
+    return base
+
+
 def run(chk):
     from qats.signal import find_reversals
     from qats.fatigue.rainflow import reversals
@@ -79,6 +201,7 @@ def run(chk):
     drv = core.Driver()
     rng = chk.rng
     cases = [[Fraction(v) for v in c["series"]] for c in core.load_corpus("C03")]
+    corpus = set(tuple(c) for c in cases)
     import itertools
     for n in range(2, (6 if chk.quick else 7) + 1):
         for w in itertools.product([0, 1, 2, 3], repeat=n):
@@ -167,6 +290,18 @@ def run(chk):
             if r2 != base:
                 chk.fail("count_cycles(find_reversals(x)[0], endpoints=True) == count_cycles(x)", inp,
                          [list(map(str, r)) for r in base], [list(map(str, r)) for r in r2], clause="recount-find_reversals")
+        # ---- the same clauses through the entry points that count cycles of a time series object --------------
+        t0, dt = Fraction(rng.choice([0, 0, 10, -3])), Fraction(rng.choice([1, 1, 2, Fraction(1, 2), Fraction(1, 4)]))
+        # thorough tier: every entry point on the short series, one seeded entry point on each of the many long generated ones (time)
+        for name in (list(ENTRIES) if chk.quick or len(s) <= 6 or tuple(s) in corpus else [rng.choice(list(ENTRIES))]):
+            chk.count("entry:" + name)
+            eb = entry_clauses(name, s, t0, dt, a, b, t2,
+                               lambda o, i, e, g, c: chk.fail(o, i, e, g, clause=c),
+                               skip=lambda: chk.dist("resample:not-exact-skipped"))
+            # tie of the entry point to count_cycles on the raw samples (an empty table cannot be unpacked by the GUI helper)
+            if eb != project(name, base) and not (isinstance(eb, str) and not base and name.startswith("app.")):
+                chk.disagree("entry==count_cycles", dict(series=[str(v) for v in s], entry=name, t0=str(t0), dt=str(dt)),
+                             str(show(project(name, base)))[:300], str(show(eb))[:300])
         if len(chk.samples) < 4 and base and len(s) > 5:
             chk.sample(dict(series=[str(v) for v in s], a=str(a), b=str(b), refined=[str(v) for v in t2]))
 
@@ -176,6 +311,18 @@ def replay(rp):
     from qats.fatigue.rainflow import reversals
     inp = rp["input"]
     s = [Fraction(v) for v in inp["series"]]
+    if "entry" in inp:
+        bad = []
+        a, b = Fraction(inp.get("a", "1")), Fraction(inp.get("b", "0"))
+        t2 = [Fraction(v) for v in inp["refined"]] if "refined" in inp else None
+
+        def report(o, i, e, g, c):
+            bad.append(c)
+            print("FAILS: %s\n  input    %s\n  expected %s\n  observed %s" % (o, i, e, g))
+        eb = entry_clauses(inp["entry"], s, Fraction(inp["t0"]), Fraction(inp["dt"]), a, b, t2, report)
+        print("entry point: %s\n  %s\ncount_cycles on the raw samples:\n  %s" % (inp["entry"], show(eb), show(project(inp["entry"], table(s)))))
+        print("replay: %d failing clause(s)" % len(bad))
+        return 1 if bad else 0
     base = table(s)
     bad = 0
     if "a" in inp:
